@@ -1168,6 +1168,13 @@ def type_tables(jobs):
                 except Exception as e:  # noqa
                     srow.append("ERR:" + type(e).__name__)
             rec = {"order": orow, "subtt": srow}
+            # the same type written twice (two annotations) is the same type
+            if T[i - 1]["k"] != "dep":
+                try:
+                    tw = R.real_twin(T, i)
+                    rec["twin"] = [typeorder(a, tw).name, typeorder(tw, a).name]
+                except Exception as e:  # noqa
+                    rec["twin"] = ["ERR:" + type(e).__name__, "ERR"]
             # C13: classes against the (static) type i
             t = T[i - 1]
             if t["k"] in ("cls", "exactly", "strict", "hasmethod", "union", "inter") and job.get("static_ok", {}).get(str(i), False):
